@@ -24,6 +24,10 @@ type pathRecord struct {
 	obs     []string
 }
 
+// maxViolPaths bounds the work spent on a harness that is already violated: every further path costs a native
+// replay, and hanging targets cost a full step budget each.
+const maxViolPaths = 40
+
 type HarnessResult struct {
 	Name       string
 	Paths      int
@@ -32,21 +36,23 @@ type HarnessResult struct {
 	Steps      int64
 	Violations []violation
 	Incon      []string
-	Covers     map[string]bool
-	Declared   []string
-	KnownSeen  map[string]bool
-	Funcs      map[*ssa.Function]bool
-	Stubs      map[string]bool
-	Queries    int
-	QUnsat     int
-	QSat       int
-	QUnk       int
-	SolverTime time.Duration
-	Wall       time.Duration
-	Witnesses  []pathRecord
-	SampleVars []varRec
-	Permute    bool
-	SharedW    []string
+	// exploration was cut short after maxViolPaths violating paths (the outcome is "violated" anyway)
+	StoppedOnViolations bool
+	Covers              map[string]bool
+	Declared            []string
+	KnownSeen           map[string]bool
+	Funcs               map[*ssa.Function]bool
+	Stubs               map[string]bool
+	Queries             int
+	QUnsat              int
+	QSat                int
+	QUnk                int
+	SolverTime          time.Duration
+	Wall                time.Duration
+	Witnesses           []pathRecord
+	SampleVars          []varRec
+	Permute             bool
+	SharedW             []string
 }
 
 type runOpts struct {
@@ -134,6 +140,7 @@ func (p *Program) runHarness(name string, fn *ssa.Function, o runOpts) *HarnessR
 	active := 0
 	stopped := false
 	seenViol := map[string]bool{}
+	violPaths := 0
 
 	var spawn func()
 	worker := func() {
@@ -174,6 +181,9 @@ func (p *Program) runHarness(name string, fn *ssa.Function, o runOpts) *HarnessR
 			for k := 0; k < len(queue)/2 && k < 4; k++ {
 				spawn()
 			}
+			if len(in.violations) > 0 {
+				violPaths++
+			}
 			for _, v := range in.violations {
 				k := v.label + "|" + v.known
 				if !seenViol[k] {
@@ -212,6 +222,11 @@ func (p *Program) runHarness(name string, fn *ssa.Function, o runOpts) *HarnessR
 			if res.SampleVars == nil && rec != nil {
 				res.SampleVars = rec.inputs
 			}
+			if !stopped && violPaths >= maxViolPaths && (len(queue) > 0 || active > 0) {
+				// the harness has decided (violated); more paths only add replays of the same defect
+				res.StoppedOnViolations = true
+				stopped = true
+			}
 			if !stopped && res.Paths >= o.maxPaths && (len(queue) > 0 || active > 0) {
 				res.Incon = append(res.Incon, fmt.Sprintf("path budget %d exhausted with %d pending", o.maxPaths, len(queue)))
 				stopped = true
@@ -246,7 +261,7 @@ func (p *Program) runHarness(name string, fn *ssa.Function, o runOpts) *HarnessR
 	mu.Unlock()
 	wg.Wait()
 	for _, d := range res.Declared {
-		if !res.Covers[d] {
+		if !res.Covers[d] && !res.StoppedOnViolations {
 			res.Incon = append(res.Incon, "vacuity: cover label never reached: "+d)
 		}
 	}
